@@ -660,8 +660,24 @@ func execDL(p *Plan, run *core.Run) {
 	k := g.RandomNonZeroScalar(data)
 	G := g.HashToElement([]byte{byte(p.Seed)}, []byte("G"))
 	kG := g.NewElement().Mul(G, k)
+	// the prover's context strings lie in one frame, other-info || user-id || next field (as
+	// they do when they are parsed out of a message): each is a sub-slice whose capacity
+	// runs on over what follows it. The verifier is another party with copies of its own.
+	frame := []byte("other-infouser-idnext-field-of-the-message")
+	frame0 := append([]byte{}, frame...)
+	pOther, pUID := frame[:10], frame[10:17]
+	proof := dl.Prove(g, G, kG, k, pUID, pOther, data)
+	if !bytes.Equal(frame, frame0) {
+		run.Violate(comp+".Prove", "modifies-memory-behind-its-input", "the frame holding the context strings was %q before Prove and is %q after it", frame0, frame)
+		return
+	}
+	run.Fault("aliasing:context-strings-share-a-frame")
+	if p.Seed%2 == 1 {
+		// history: a second proof made from the same frame is the one that is sent
+		proof = dl.Prove(g, G, kG, k, pUID, pOther, data)
+		run.Fault("history:second-proof-from-the-same-context-buffer")
+	}
 	uid, other := []byte("user-id"), []byte("other-info")
-	proof := dl.Prove(g, G, kG, k, uid, other, data)
 	faulted := true
 	switch p.Fault {
 	case "":
@@ -691,9 +707,16 @@ func execDL(p *Plan, run *core.Run) {
 		run.Fault("transport:" + p.Fault)
 	}
 	ok := false
-	pan, v, st := core.Try(func() { ok = dl.Verify(g, G, kG, proof, uid, other) })
+	vframe := append(append(append([]byte{}, other...), uid...), "tail"...)
+	vframe0 := append([]byte{}, vframe...)
+	vOther, vUID := vframe[:len(other)], vframe[len(other):len(other)+len(uid)]
+	pan, v, st := core.Try(func() { ok = dl.Verify(g, G, kG, proof, vUID, vOther) })
 	if pan {
 		run.Violate(comp+".Verify", core.PanicClass(v), "%s at %s", v, st)
+		return
+	}
+	if !bytes.Equal(vframe, vframe0) {
+		run.Violate(comp+".Verify", "modifies-memory-behind-its-input", "the frame holding the verifier's context strings was %q before Verify and is %q after it", vframe0, vframe)
 		return
 	}
 	run.Event("verifier", "dl", p.Fault, ok)
